@@ -1322,8 +1322,18 @@ def sp_perm_of(I, args, kw):
                   patterns=[sgi(j)])))
 
 
+def sp_enc_eq(I, args, kw):
+    """enc_eq(a, b) (spec): equality of the *encoded* values (one z3 equality; for records/containers this is
+    stronger than the extensional `==` / seq_eq and free of nested quantifiers)"""
+    a, b = args
+    if isinstance(a, VUndef) or isinstance(b, VUndef):
+        return VBool(I.undef_bool())
+    t = typeof(a)
+    return VBool(unwrap(a, t) == unwrap(b, t))
+
+
 BUILTIN_FUNCS = {
-    "map_put": sp_map_put, "map_del": sp_map_del, "perm_of": sp_perm_of,
+    "map_put": sp_map_put, "map_del": sp_map_del, "perm_of": sp_perm_of, "enc_eq": sp_enc_eq,
     "lemma_pigeonhole": gh_lemma_pigeonhole, "int_parses": sp_int_parses, "int_value": sp_int_value,
     "len": bi_len, "int": bi_int, "float": bi_float, "bool": bi_bool, "str": bi_str, "abs": bi_abs,
     "min": bi_min, "max": bi_max, "isinstance": bi_isinstance, "hasattr": bi_hasattr, "getattr": bi_getattr,
